@@ -282,7 +282,8 @@ class Ctx:
                 for cf in self.corr_failures[:5]:
                     self.log("disagreement: " + json.dumps(cf)[:400])
                 print("VIOLATION property=%s replay=%s no-failing-input-found" % (self.pid, path), flush=True)
-        ev = {"property_id": self.pid, "tier": self.tier, "seed": self.seed, "level": "proof",
+        level = "proof" if self.cov.get("property_theorems") else "exploration"
+        ev = {"property_id": self.pid, "tier": self.tier, "seed": self.seed, "level": level,
               "coverage": self.cov, "assumptions": self.assumptions, "wall_s": round(wall, 2),
               "violations": violations, "repo": repo_fingerprint(), "notes": self.notes,
               "known_findings_seen": sorted(printed)}
